@@ -1,3 +1,4 @@
+import warnings
 """C04 — isolated systems conserve momentum, angular momentum and (as advertised) energy.
 
 1. proofs: coq/C04 (diagnostics = definitions; pair forces with back-reaction have zero net force and torque;
@@ -172,6 +173,50 @@ def run(ctx):
         if max(abs(a - b) for a, b in zip(P0, P1)) > 1e-12: why = "merging changed the total momentum"
         if max(abs(x1 - (x0 + p * t)) for x0, x1, p in zip(X0, X1, P0)) > 1e-11: why = "merging moved the centre of mass off its uniform motion"
         if why: fails.append({"why": why, "N0": N0, "N1": sim.N, "seed_case": rep})
+    # merging collisions inside gravitating systems, for every integrator that supports them, with interleaved
+    # step / integrate / synchronize calls (state the integrators keep across a change of N must be refreshed)
+    mintegs = ["leapfrog", "whfast", "janus", "ias15", "mercurius", "trace", "saba", "eos", "bs", "whfast-dh"]
+    for rep in range(ctx.scale(20, 200)):
+        integ = mintegs[rep % len(mintegs)]
+        n = rng.randint(4, 6)
+        sim = rand_system(rebound, rng, n)
+        if integ == "whfast-dh":
+            integ = "whfast"; sim.ri_whfast.coordinates = "democraticheliocentric"
+        sim.integrator = integ
+        if integ == "janus":
+            sim.ri_janus.order = rng.choice([2, 4, 6]); sim.ri_janus.scale_pos = 1e-16; sim.ri_janus.scale_vel = 1e-16
+        sim.dt = 2 * math.pi * math.sqrt(1.6 ** 3 / sim.G) / rng.choice([60, 87, 113])
+        i = rng.randint(1, n - 2)
+        ps = sim.particles
+        ai = math.hypot(ps[i].x - ps[0].x, ps[i].y - ps[0].y); aj = math.hypot(ps[i + 1].x - ps[0].x, ps[i + 1].y - ps[0].y)
+        ps[i].r = 0.6 * (aj - ai); ps[i + 1].r = 0.6 * (aj - ai)      # the two neighbours overlap at conjunction
+        sim.collision = "direct"; sim.collision_resolve = "merge"
+        M0 = sum(Fraction(p.m) for p in sim.particles); P0, _ = exact_PL(sim)
+        X0 = [float(sum(Fraction(p.m) * Fraction(getattr(p, c)) for p in sim.particles)) for c in "xyz"]
+        Pscale = max(p.m * (abs(p.vx) + abs(p.vy) + abs(p.vz)) for p in sim.particles)
+        N0 = sim.N; t0 = sim.t; nst = 400
+        with warnings.catch_warnings():
+            warnings.simplefilter("ignore")
+            for s_ in range(nst):
+                if s_ % 3 == 0: sim.step()
+                elif s_ % 3 == 1: sim.integrate(sim.t + 2.5 * sim.dt, exact_finish_time=0)
+                else: sim.synchronize()
+            sim.synchronize()
+        ctx.case(key=("merge-grav", integ, N0, sim.N))
+        why = None
+        if any(not (p.x == p.x and p.vx == p.vx) for p in sim.particles):
+            why = "NaN particle after merging"
+        else:
+            M1 = sum(Fraction(p.m) for p in sim.particles); P1, _ = exact_PL(sim)
+            X1 = [float(sum(Fraction(p.m) * Fraction(getattr(p, c)) for p in sim.particles)) for c in "xyz"]
+            t = sim.t - t0; jf = 1e6 if integ == "janus" else 1
+            tolP = 2.2e-16 * math.sqrt(3 * nst) * 400 * jf
+            dP = max(abs(a - b) for a, b in zip(P0, P1)) / Pscale
+            dX = max(abs(x1 - (x0 + p_ * t)) for x0, x1, p_ in zip(X0, X1, P0))
+            if abs(float(M1 - M0)) > 1e-13 * float(M0): why = "merging changed the total mass (%s)" % integ
+            elif dP > tolP: why = "merging changed the total momentum: relative %.3g (tolerance %.3g)" % (dP, tolP)
+            elif dX > 1e-10 * jf ** 0.5: why = "merging moved the centre of mass off its uniform motion by %.3g" % dX
+        if why: fails.append({"why": why, "integrator": integ, "N0": N0, "N1": sim.N, "seed_case": rep, "dt": sim.dt, "G": sim.G})
     if fails:
         f = fails[0]
         ctx.violation("conservation:" + f["why"].split(" ")[0] + ":" + str(f.get("integrator", "merge")), f, True, f["why"])
